@@ -21,6 +21,7 @@ package props
 import (
 	"context"
 	"fmt"
+	"runtime"
 	"strings"
 	"sync/atomic"
 	"testing"
@@ -66,6 +67,11 @@ func (c16sDetached) Deadline() (time.Time, bool) { return time.Time{}, false }
 func (c16sDetached) Done() <-chan struct{}       { return nil }
 func (c16sDetached) Err() error                  { return nil }
 func (c c16sDetached) Value(k any) any           { return c.inner.Value(k) }
+
+//go:noinline
+func c16sDoneOnly(primary, other context.Context) <-chan struct{} {
+	return bigbuff.CombineContext(primary, nil, other).Done()
+}
 
 type c16sInput struct {
 	kind      string
@@ -181,6 +187,64 @@ func TestC16Static(t *testing.T) {
 					nontrivial = len(otherIdx) >= 2
 				}
 			}
+		}
+
+		// ---- combinators applied to their own results: the values of an earlier result survive WithoutCancel (and
+		// ConflatedContext, which builds on it) while its cancellation does not — a later CombineContext with the same
+		// other must wire that other up again
+		{
+			var live []int
+			for i, x := range in {
+				if x.cancel != nil && !x.cancelled {
+					live = append(live, i)
+				}
+			}
+			if len(live) >= 1 && rapid.IntRange(0, 2).Draw(t, "nested") == 0 {
+				xi := live[rapid.IntRange(0, len(live)-1).Draw(t, "nestedOther")]
+				x := in[xi]
+				p, pcancel := context.WithCancel(context.Background())
+				r1 := bigbuff.CombineContext(p, x.ctx)
+				var p2 context.Context
+				how := rapid.SampledFrom([]string{"WithoutCancel", "Conflated", "WithValue"}).Draw(t, "nestedVia")
+				var c2cancel context.CancelFunc = func() {}
+				switch how {
+				case "WithoutCancel":
+					p2 = context.WithoutCancel(r1)
+				case "Conflated":
+					p2, c2cancel = bigbuff.ConflatedContext(r1, context.Background())
+				default:
+					p2 = context.WithValue(r1, c16sKey(99), 1)
+				}
+				r2 := bigbuff.CombineContext(p2, nil, x.ctx)
+				trace = append(trace, fmt.Sprintf("nested: r2=Combine(%s(Combine(p,in%d)), in%d); cancel(in%d)", how, xi, xi, xi))
+				if r2.Err() != nil {
+					vkit.Fail(t, "C16/combine-cancelled-early", "a CombineContext built on top of an earlier result is cancelled on return although nothing is cancelled\ncase: %v", trace)
+				}
+				x.cancel()
+				x.cancelled = true
+				<-r2.Done() // never following is a stall (watchdog)
+				pcancel()
+				c2cancel()
+			}
+		}
+
+		// ---- only the Done channel of a result is kept: it closes when an input is cancelled, not because the
+		// garbage collector ran
+		if rapid.IntRange(0, 9).Draw(t, "doneOnly") == 0 {
+			o, ocancel := context.WithCancel(context.Background())
+			done := c16sDoneOnly(context.Background(), o)
+			for i := 0; i < 3; i++ {
+				runtime.GC()
+				runtime.Gosched()
+			}
+			select {
+			case <-done:
+				vkit.Fail(t, "C16/combine-cancelled-early", "the Done channel of a CombineContext result closed although no input was cancelled (only the channel was kept, and the garbage collector ran)\ncase: %v", trace)
+			default:
+			}
+			ocancel()
+			<-done
+			trace = append(trace, "done-only result survived GC")
 		}
 
 		// ---- ConflatedContext
